@@ -6,6 +6,7 @@ package wd
 import (
 	"encoding/json"
 	"os"
+	"strconv"
 	"sync/atomic"
 	"time"
 )
@@ -17,6 +18,9 @@ var (
 
 // Start arms the watchdog. limit is the time one case may take.
 func Start(path string, limit time.Duration) {
+	if k, err := strconv.Atoi(os.Getenv("VERIF_WD_SCALE")); err == nil && k > 1 {
+		limit *= time.Duration(k) // confirmation run: see lib/vcheck.py drive()
+	}
 	go func() {
 		last := int64(-1)
 		since := time.Now()
